@@ -90,12 +90,17 @@ CASES = [
       (S, "                task.task_status = TaskStatus.SCHEDULED\n", ""),
       (C, "                    task.task_status = TaskStatus.SCHEDULED\n                    ret = self.env.process(task.do_work", "                    ret = self.env.process(task.do_work")),
     W('C04', 'scheduler SCHEDULED write removed (cluster still writes it)', (S, "                task.task_status = TaskStatus.SCHEDULED\n", "")),
+    M('C04', 'hand-off returns the oldest scheduled observation', (B, "            return self.observations['scheduled'][-1]", "            return self.observations['scheduled'][0]")),
+    W('C04', 'hand-off returns the popped observation itself', (B, "            self.observations['scheduled'].append(self.observations['stored'].pop())\n            return self.observations['scheduled'][-1]", "            obs = self.observations['stored'].pop()\n            self.observations['scheduled'].append(obs)\n            return obs")),
     # ---------------- C05
     M('C05', 'release of the ingest reservation dropped', (S, "            self.provision_ingest -= pipeline_demand\n", "")),
     M('C05', 'loop yield made conditional', (S, "            yield self.env.timeout(1)\n\n        if RunStatus.FINISHED:", "            if time_left > 0:\n                yield self.env.timeout(1)\n\n        if RunStatus.FINISHED:")),
     M('C05', 'guard of hot stored[-1] removed', (B, "                    if self.hot[b].observations['stored'] and \\\n                            self.cold[b].has_capacity_for(", "                    if self.cold[b].has_capacity_for(")),
     M('C05', 'greedy membership guard removed', (GR, "        elif machine in temporary_resources:", "        else:")),
     W('C05', 'algorithm-side partition release removed (scheduler still releases)', (BA, "            cluster.release_batch_resources(workflow_plan.id)\n", "")),
+    M('C05', 'constructor loses an attribute the loop reads', (B, "        self.threshold = 0.6\n", "")),
+    M('C05', 'local read before any assignment', (S, "        time_left = observation.duration - 1\n        while ingest_observation", "        while ingest_observation")),
+    W('C05', 'attribute moved to a class-level default', (B, "        self.threshold = 0.6\n", "        type(self).threshold = 0.6\n")),
     # ---------------- C06
     M('C06', 'timeout(total) instead of total - 1', (T, "            yield env.timeout(total_duration - 1)", "            yield env.timeout(total_duration)")),
     M('C06', 'max -> min', (T, "        return  max(compute_time, data_time)", "        return  min(compute_time, data_time)")),
